@@ -199,6 +199,9 @@ func (k Keeper) RefundEarnedFees(ctx sdk.Context) error {
 		var earnedFee sdk.Coin
 		k.cdc.MustUnmarshalBinaryBare(iterator.Value(), &earnedFee)
 
+		// the key is prefix | provider | denom
+		provider = provider[:len(provider)-len(earnedFee.Denom)]
+
 		if err := k.bankKeeper.SendCoinsFromModuleToAccount(
 			ctx, types.RequestAccName, provider, sdk.NewCoins(earnedFee),
 		); err != nil {
